@@ -7,6 +7,7 @@ import (
 	"hash/fnv"
 	"io"
 	"strings"
+	"sync"
 
 	"github.com/tdewolff/parse/v2"
 	"github.com/tdewolff/parse/v2/buffer"
@@ -82,7 +83,31 @@ func cp(b []byte) []byte {
 		copy(s, b)
 		return s
 	}
-	return append(make([]byte, 0, len(b)+8), b...)
+	s := append(make([]byte, 0, len(b)+8), b...)
+	copies.Lock()
+	copies.list = append(copies.list, s)
+	copies.Unlock()
+	return s
+}
+
+// copies: the buffers that entries handed to the library as their private data. Once the calls have returned they are the
+// caller's again, and the caller re-uses them: reuseCopies overwrites them all. A result that the library keeps in terms of
+// an earlier caller's buffer (an interned name, a cached slice) changes with it.
+var copies struct {
+	sync.Mutex
+	list [][]byte
+}
+
+func reuseCopies() {
+	copies.Lock()
+	for _, s := range copies.list {
+		s = s[:cap(s)]
+		for i := range s {
+			s[i] = 0xAA
+		}
+	}
+	copies.list = nil
+	copies.Unlock()
 }
 
 // chunkReader hands out the input in pieces whose sizes come from prog
